@@ -245,6 +245,12 @@ func (ev *Eval) ev(e SExpr) (sval, error) {
 		switch u := under(base.Typ).(type) {
 		case *types.Slice:
 			addr := tAdd(base.Comps[0], tMul(idx.Comps[0], intLit(cellSize(u.Elem()))))
+			if g.topC != nil && g.topC.IndexFn {
+				// quantified reasoning (inside quantifiers, in lemmas, and in functions that keep spec functions
+				// opaque): address through the uninterpreted index function, so that E-matching can instantiate
+				// on shifted indices (idxN(p,i) = p + N*i is given as an axiom)
+				addr = g.idxTerm(base.Comps[0], idx.Comps[0], cellSize(u.Elem()))
+			}
 			if isAggregate(u.Elem()) {
 				return sval{v: Val{Typ: u.Elem()}, addr: &addr}, nil
 			}
@@ -696,7 +702,39 @@ func (ev *Eval) call(x *SCall) (sval, error) {
 		if _, bound := ev.vars[id.Name]; !bound {
 			// spec function (macro)
 			if fn, ok := g.ctx.specs.Fns[id.Name]; ok {
-				return ev.expandSpecFn(fn, x.Args)
+				return ev.expandSpecFn(fn, x.Args, false)
+			}
+			// old_f(args): arguments taken from the current state, f's body evaluated in the entry state
+			if strings.HasPrefix(id.Name, "old_") {
+				if fn, ok := g.ctx.specs.Fns[strings.TrimPrefix(id.Name, "old_")]; ok && ev.old != nil {
+					return ev.expandSpecFn(fn, x.Args, true)
+				}
+			}
+			if gf, ok := g.ctx.specs.Ghosts[id.Name]; ok {
+				if len(x.Args) != len(gf.Params) {
+					return sval{}, fmt.Errorf("ghost fn %s: wrong argument count", id.Name)
+				}
+				var argVals []Val
+				for i, a := range x.Args {
+					v, err := ev.eval(a)
+					if err != nil {
+						return sval{}, err
+					}
+					if pt, err := ev.resolveType(gf.Params[i].Type); err == nil {
+						if v.Typ == untypedInt || isNilVal(v) {
+							if isNilVal(v) {
+								v = g.zeroVal(pt)
+							}
+						}
+						v.Typ = pt
+					}
+					argVals = append(argVals, v)
+				}
+				rt, err := ev.resolveType(gf.Result)
+				if err != nil {
+					return sval{}, err
+				}
+				return sval{v: g.pureApp("ghost:"+id.Name, argVals, rt, ev.st)}, nil
 			}
 			if key, ok := g.ctx.specs.Aliases[id.Name]; ok {
 				fn := g.ctx.lookupFunc(key)
@@ -803,9 +841,35 @@ func (ev *Eval) convert(t types.Type, args []SExpr) (sval, error) {
 	return sval{}, fmt.Errorf("unsupported conversion to %v", t)
 }
 
-func (ev *Eval) expandSpecFn(fn *SpecFn, args []SExpr) (sval, error) {
+func (ev *Eval) expandSpecFn(fn *SpecFn, args []SExpr, inOld bool) (sval, error) {
 	if len(args) != len(fn.Params) {
 		return sval{}, fmt.Errorf("spec fn %s: wrong argument count", fn.Name)
+	}
+	if g := ev.g; g.topC != nil && g.topC.Hide[fn.Name] {
+		// opaque: an uninterpreted function of the arguments and the state the body would be evaluated in
+		var argVals []Val
+		for i, a := range args {
+			v, err := ev.eval(a)
+			if err != nil {
+				return sval{}, err
+			}
+			if pt, err := ev.resolveType(fn.Params[i].Type); err == nil {
+				if isNilVal(v) {
+					v = g.zeroVal(pt)
+				}
+				v.Typ = pt
+			}
+			argVals = append(argVals, v)
+		}
+		rt, err := ev.resolveType(fn.Result)
+		if err != nil {
+			return sval{}, err
+		}
+		st := ev.st
+		if inOld {
+			st = ev.old
+		}
+		return sval{v: g.pureApp("spec:"+fn.Name, argVals, rt, st)}, nil
 	}
 	if ev.depth > 40 {
 		return sval{}, fmt.Errorf("spec fn expansion too deep (recursive?)")
@@ -814,6 +878,9 @@ func (ev *Eval) expandSpecFn(fn *SpecFn, args []SExpr) (sval, error) {
 	sub.depth = ev.depth + 1
 	sub.vars = map[string]Val{}
 	sub.lookup = nil
+	if inOld {
+		sub.st = ev.old
+	}
 	for i, p := range fn.Params {
 		v, err := ev.eval(args[i])
 		if err != nil {
@@ -969,4 +1036,15 @@ func heapIndependent(key string) bool {
 		}
 	}
 	return false
+}
+
+// idxTerm: p + cs*i as an uninterpreted application (with its defining axiom), for use in quantified facts.
+func (g *Gen) idxTerm(p, i Term, cs int64) Term {
+	fn := fmt.Sprintf("idx%d", cs)
+	if !g.declared[fn] {
+		g.declared[fn] = true
+		g.emit(fmt.Sprintf("(declare-fun %s (Int Int) Int)", fn))
+		g.emit(fmt.Sprintf("(assert (forall ((p Int) (i Int)) (! (= (%s p i) (+ p (* %d i))) :pattern ((%s p i)))))", fn, cs, fn))
+	}
+	return app(fn, SInt, p, i)
 }
